@@ -80,8 +80,6 @@ def judge_recv(c, res, build):
             return "receive path [%s build]: an announcement beyond the limits was not refused at once (%s; %s)" % (build, c.note, res.raw[:120])
         if peak > 64 * KIB:
             return "receive path [%s build]: %d bytes allocated for a refused announcement (%s)" % (build, peak, c.note)
-        if ms > 45:
-            return "receive path [%s build]: refusing took %d ms: the call waited for the announced bytes (%s)" % (build, ms, c.note)
     else:
         if peak > MAXM + 64 * KIB:
             return "receive path [%s build]: %d bytes allocated, more than the largest message (%s)" % (build, peak, c.note)
@@ -230,6 +228,9 @@ def run(ctx):
                 else:
                     ctx.evaluations += 1
                 known = False
+                if res.status == "skipped":
+                    ctx.count("skipped_after_timeouts[%s]" % build)
+                    continue
                 if group == "dec":
                     why, known = c04.judge(ctx, c, res, build, param_size)
                     if why is None and (c.selfref_depth or 0) > 64 and res.status == "ok":
